@@ -15,8 +15,10 @@ IsFlag(s) == s.op = "flag" \/ s.op = "flagOut"
 StepAcc(e, acc, s) ==
   IF s.res # "ok" THEN [acc EXCEPT !.bad = @ \cup {"Total"}]
   ELSE LET deps2 == IF IsFlag(s) THEN acc.deps \cup {DepOf(acc.prev, s.op, s.x, s.y)} ELSE acc.deps
-           b1 == IF Monotone(s.st, e.dir) THEN {} ELSE {"Monotone"}
-           b2 == IF FlagsCover(s.st, deps2) THEN {} ELSE {"FlagsCover"}
+           \* behaviours of the raw family reverse the buffer: clusters stay monotone in one of the two directions;
+           \* FlagsCover is judged for the two pass families only
+           b1 == IF (IF e.dir = "raw" THEN MonotoneAny(s.st) ELSE Monotone(s.st, e.dir)) THEN {} ELSE {"Monotone"}
+           b2 == IF e.dir = "raw" \/ FlagsCover(s.st, deps2) THEN {} ELSE {"FlagsCover"}
            b3 == IF Apply(acc.prev, s.op, s.x, s.y) = s.st THEN {} ELSE {"Drift"}
        IN [prev |-> s.st, deps |-> deps2, bad |-> acc.bad \cup b1 \cup b2 \cup b3]
 Judge(e) == FoldLeft(LAMBDA acc, s : StepAcc(e, acc, s), [prev |-> e.init, deps |-> {}, bad |-> {}], e.steps).bad
